@@ -12,7 +12,10 @@ from harness import forge as F
 from harness.world import State, HarnessError
 
 ck = Check('C10', 'model_checking')
-SCEN = C.scenario_list(ck.quick)
+QUICK_SCEN = C.scenario_list(True)
+# thorough: the quick scenarios with every monitor, plus the larger spaces with all monitors except the socket-failure
+# re-executions (one drain per netlink request per transition does not fit the larger spaces)
+SCEN = QUICK_SCEN if ck.quick else QUICK_SCEN + [dict(s, light=True) for s in C.scenario_list(False)]
 ERRNOS = (K.ENOMEM, K.EEXIST)
 
 
@@ -265,7 +268,8 @@ FOREIGN_SCENARIOS = [dict(config='match', kinds=('rekey_ike', 'soft', 'hard'), b
 
 
 def run(i):
-    ex = C.explore(SCEN[i], MONITORS, STATE_MONITORS, quick=ck.quick, max_states=None if ck.quick else 400000, jobs=0 if ck.quick else ck.jobs)
+    mons = [m for m in MONITORS if not (SCEN[i].get('light') and m is m_ksock)]
+    ex = C.explore(SCEN[i], mons, STATE_MONITORS, quick=ck.quick, max_states=None if ck.quick else 400000, jobs=0 if ck.quick else ck.jobs)
     return ex.summary()
 
 
